@@ -45,6 +45,8 @@ PROGRAMS = [
     # source encodings the import system understands: a PEP 263 cookie and a UTF-8 BOM
     ("latin-1-cookie", b"# -*- coding: latin-1 -*-\ns = 'caf\xe9 \xc3\xa9'\n"),
     ("utf-8-bom", b"\xef\xbb\xbfs = 'bom \xc3\xa9'\n"),
+    # whitespace-only lines inside a triple-quoted string and a docstring
+    ("blank-lines-in-strings", 'x = """a\n  \n\t\nb"""\ndef f():\n    """doc\n    \n    more"""\n'),
     # the two characters backslash+n inside literals: only -c un-escapes them
     ("backslash-n", 'x = "a\\nb"\ny = r"\\n+"\n'),
     ("one-line-suites", "for i in a:\n    if i: break\ntry:\n    f()\nexcept E: pass\nclass A: pass\nclass A: pass\n"),
@@ -146,8 +148,12 @@ class C16(Monitor):
                 for pi in range(len(PROGRAMS)):
                     yield {"k": "argv", "s": "CLI", "sources": smask, "flags": fmask, "prog": pi}
 
+        # the program file is a pipe, not a regular file (python-code-data /dev/stdin)
+        for pi in range(len(PROGRAMS)):
+            yield {"k": "pipe", "s": "PIPE", "prog": pi}
+
     def predicted(self):
-        return 16 * 32 * len(PROGRAMS)
+        return 16 * 32 * len(PROGRAMS) + len(PROGRAMS)
 
     def finish(self, stats):
         if self.env is not None:
@@ -228,7 +234,38 @@ class C16(Monitor):
         o, e = p.communicate(timeout=120)
         return p.returncode, o.decode("utf-8", "surrogatepass"), e.decode("utf-8", "surrogatepass")
 
+    def check_pipe(self, case, stats):
+        """`python-code-data /dev/stdin` with the program coming through a pipe."""
+        pi = case["prog"]
+        raw = PROGRAMS[pi][1]
+        data = raw if isinstance(raw, bytes) else raw.encode("utf-8", "surrogatepass")
+        stats.evaluations += 1
+        stats.nontriv(("pipe", pi))
+        env = dict(os.environ)
+        env["PYTHONIOENCODING"] = "utf-8:surrogatepass"
+        p = subprocess.Popen(
+            [sys.executable, "-c", "import sys; sys.argv[0] = 'python-code-data'; from code_data._cli import main; main()", "/dev/stdin"],
+            stdin=subprocess.PIPE,
+            stdout=subprocess.PIPE,
+            stderr=subprocess.PIPE,
+            env=env,
+        )
+        o, e = p.communicate(data, timeout=120)
+        out = o.decode("utf-8", "surrogatepass")
+        if p.returncode != 0:
+            stats.violation(case, "pipe-source-fails", "program %r given as /dev/stdin through a pipe: exit %s, stderr %s" % (PROGRAMS[pi][0], p.returncode, short(e.decode("utf-8", "replace"), 200)))
+            return
+        c = compile(data, "/dev/stdin", "exec", dont_inherit=True)
+        want = CodeData.from_code(c).normalize()
+        parts = split_output(out)
+        if parts is None or parts[1] != repr(want):
+            stats.violation(case, "pipe-source-differs", "program %r through a pipe: printed value is not the API's" % PROGRAMS[pi][0])
+            return
+        stats.outcomes["pipe-source-ok"] += 1
+
     def check(self, case, stats):
+        if case["k"] == "pipe":
+            return self.check_pipe(case, stats)
         if self.env is None:
             self.env = Env()
         argv, given = self.argv_for(case)
